@@ -12,8 +12,9 @@ abbrev Bytes := List UInt8
 
 namespace Bytes
 
-/-- ASCII bytes of a Lean string (used for literals only). -/
-def ofString (s : String) : Bytes := s.toUTF8.toList
+/-- Bytes of an ASCII Lean string literal (used for literals only; written through `toList` so
+that the kernel can evaluate it). -/
+def ofString (s : String) : Bytes := s.toList.map fun c => UInt8.ofNat c.toNat
 
 /-- Render bytes that are known to be ASCII as a Lean string (driver output only). -/
 def toAsciiString (b : Bytes) : String :=
